@@ -32,6 +32,8 @@ enum XOp {
     Base(Op),
     /// revive through the access-controlled path as the recycle-bin administrator or an ordinary user
     ReviveAs { admin: bool, t: Ref },
+    /// one revive request (recycle-bin administrator) whose filter names several entries at once
+    ReviveMany { ts: Vec<Ref> },
 }
 
 #[derive(Debug, Clone, Serialize, Deserialize)]
@@ -93,6 +95,16 @@ async fn apply_x(node: &mut Node, op: &XOp) -> Result<(), OperationError> {
             let idt = ident_of(node, if *admin { admin_uuid() } else { user_uuid() }).await;
             let mut w = node.qs.write(node.now()).await?;
             let f = Filter::new(f_eq(Attribute::Uuid, PartialValue::Uuid(t.uuid())));
+            let re = ReviveRecycledEvent::from_parts(idt, &f, &w)?;
+            w.revive_recycled(&re)?;
+            w.commit()?;
+            node.clock += 1;
+            Ok(())
+        }
+        XOp::ReviveMany { ts } => {
+            let idt = ident_of(node, admin_uuid()).await;
+            let mut w = node.qs.write(node.now()).await?;
+            let f = Filter::new(f_or(ts.iter().map(|t| f_eq(Attribute::Uuid, PartialValue::Uuid(t.uuid()))).collect()));
             let re = ReviveRecycledEvent::from_parts(idt, &f, &w)?;
             w.revive_recycled(&re)?;
             w.commit()?;
@@ -168,6 +180,19 @@ fn arb_chunk(w: &Weights) -> BoxedStrategy<Vec<XOp>> {
     prop_oneof![
         22 => arb_xop(w).prop_map(|o| vec![o]),
         3 => (any.clone(), arb_xop(w), proptest::bool::weighted(0.7)).prop_map(|(t, mid, admin)| vec![XOp::Base(Op::Delete { t }), mid, XOp::ReviveAs { admin, t }]),
+        // several direct members of one group deleted, then revived by ONE request (batch revive)
+        3 => (0u8..w.groups.max(1), proptest::collection::vec(0u8..w.persons.max(1), 2..4), proptest::bool::ANY).prop_map(|(g, ps, one_delete)| {
+            let mut ps = ps;
+            ps.sort();
+            ps.dedup();
+            let mut v: Vec<XOp> = ps.iter().map(|p| XOp::Base(Op::AddMember { g: Ref::G(g), m: Ref::P(*p) })).collect();
+            let _ = one_delete;
+            for p in &ps {
+                v.push(XOp::Base(Op::Delete { t: Ref::P(*p) }));
+            }
+            v.push(XOp::ReviveMany { ts: ps.iter().map(|p| Ref::P(*p)).collect() });
+            v
+        }),
         1 => (any, delta.clone()).prop_map(|(t, d)| vec![
             XOp::Base(Op::Delete { t }),
             XOp::Base(Op::Advance { secs: (W_RECYCLE as i64 + d - 1) as u32 }),
@@ -244,7 +269,7 @@ fn run(rt: &tokio::runtime::Runtime, c: &Case) -> Outcome {
                 let legal = match (a, b, op) {
                     (St::Gone, St::Live, XOp::Base(Op::CreatePerson { .. } | Op::CreateService { .. } | Op::CreateGroup { .. })) => true,
                     (St::Live, St::Recycled, XOp::Base(Op::Delete { .. })) => true,
-                    (St::Recycled, St::Live, XOp::Base(Op::Revive { .. }) | XOp::ReviveAs { admin: true, .. }) => true,
+                    (St::Recycled, St::Live, XOp::Base(Op::Revive { .. }) | XOp::ReviveAs { admin: true, .. } | XOp::ReviveMany { .. }) => true,
                     (St::Recycled, St::Tombstone, XOp::Base(Op::PurgeRecycled)) => true,
                     (St::Tombstone, St::Gone, XOp::Base(Op::PurgeTombstones)) => true,
                     _ => false,
@@ -442,7 +467,7 @@ fn run(rt: &tokio::runtime::Runtime, c: &Case) -> Outcome {
             }
 
             // --- after a revive the membership closure is exact again (C17's checker; its known finding is not re-reported here)
-            if res.is_ok() && matches!(op, XOp::Base(Op::Revive { .. }) | XOp::ReviveAs { .. }) {
+            if res.is_ok() && matches!(op, XOp::Base(Op::Revive { .. }) | XOp::ReviveAs { .. } | XOp::ReviveMany { .. }) {
                 if let Some((sig, detail)) = inv::memberof_classify(&after) {
                     if sig == inv::SIG_MO_STALE_CYCLE {
                         known_c17.get_or_insert(detail);
